@@ -103,40 +103,49 @@ def collect {β : Type} : List (Option β) → Option (List β)
 def pflipsAll (weights : List α) (us : List α) : Option (List Nat) :=
   if weights.isEmpty then none else collect (pflips weights us)
 
-/-! ## `ln_pflips` (func.rs:293-326) -/
+/-! ## `ln_pflips` (func.rs:293-331) -/
 
 /-- the cumulative weights of `ln_pflips`, func.rs:299-312 -/
 def lnCws (lnw : List α) (normed : Bool) : List α :=
   let z := if normed then (0.0 : α) else Gen.logsumexp lnw
   scanL (fun state w => state + exp (w - z)) (0.0 : α) lnw
 
-/-- `ln_pflips(ln_weights, n, normed, rng)`, `us` = the `n` variates `rng.sample(Open01)` (= `open01 word`);
-    no emptiness assertion in the Rust code: an empty `ln_weights` panics at the first draw only -/
+/-- `ln_pflips(ln_weights, n, normed, rng)`, `us` = the `n` variates `rng.sample(Open01)` (= `open01 word`).
+    After the repair "ln_pflips scales the variate by the rounded running total like pflips":
+    `total = cws.last().copied().unwrap_or(1.0)` (func.rs:315) and `r = rng.sample(Open01) * total` (func.rs:319).
+    No emptiness assertion in the Rust code: an empty `ln_weights` panics at the first draw only. -/
 def lnPflips (lnw : List α) (normed : Bool) (us : List α) : List (Option Nat) :=
   let cws := lnCws lnw normed
-  us.map (fun u => Gen.catflip cws u)   -- func.rs:316-323
+  let total := cws.getLast?.getD (1.0 : α)          -- func.rs:315
+  us.map (fun u => Gen.catflip cws (u * total))     -- func.rs:319-326
 
 def lnPflipsAll (lnw : List α) (normed : Bool) (us : List α) : Option (List Nat) :=
   collect (lnPflips lnw normed us)
 
-/-! ## Gumbel-max samplers `ln_pflip` (func.rs:328-342), `gumbel_pflip` (func.rs:203-214) -/
+/-! ## Gumbel-max samplers `ln_pflip` (func.rs:333-349), `gumbel_pflip` (func.rs:205-217) -/
 
-/-- comparator of `ln_pflip`, func.rs:337-339: `l1.partial_cmp(&(l2 * (ln_w1 - ln_w2).exp())).unwrap()` -/
+/-- comparator of `ln_pflip` on items `(index, (ln_w, g))` with `g = ln(-ln u)`: the Gumbel key `ln_w - g`
+    (func.rs:344, computed once per item in the Rust `map`; recomputed here, same value) compared with
+    `k1.partial_cmp(k2).unwrap()` (func.rs:346) -/
 def lnPflipCmp (x y : Nat × α × α) : Option Ordering :=
-  pcmp x.2.2 (y.2.2 * exp (x.2.1 - y.2.1))
+  pcmp (x.2.1 - x.2.2) (y.2.1 - y.2.2)
 
-/-- `ln_pflip(ln_weights, _normed, rng)`; `us` = the variates `rng.gen::<f64>()` (= `std01 word`), one per weight, drawn in
-    index order (the `map` is lazy and `max_by` consumes the iterator front to back).
+/-- `ln_pflip(ln_weights, _normed, rng)` after the repair "ln_pflip compares Gumbel keys ln_w - ln(-ln u)":
+    `argmax_i ln_w_i - ln(-ln u_i)`; `us` = the variates `rng.sample(Open01)` (= `open01 word`), one per weight, drawn in
+    index order (the `map` is lazy and `max_by` consumes the iterator front to back; last maximum wins).
     `none` = `unwrap()` of `None` (empty input) or of a `partial_cmp` with a NaN operand. -/
 def lnPflip (lnw : List α) (us : List α) : Option Nat :=
-  let items := (List.range lnw.length).zip (lnw.zip (us.map ln))
+  let items := (List.range lnw.length).zip (lnw.zip (us.map (fun u => ln (-(ln u)))))
   (maxBy lnPflipCmp items).map (·.1)
 
-/-- comparator of `gumbel_pflip`, func.rs:209-211: `(*w2 * l1).partial_cmp(&(*w1 * l2)).unwrap()` -/
+/-- comparator of `gumbel_pflip`, func.rs:212-214: `(*w2 * l1).partial_cmp(&(*w1 * l2)).unwrap()` on items
+    `(index, (w, l))`, `l = ln u` -/
 def gumbelCmp (x y : Nat × α × α) : Option Ordering :=
   pcmp (y.2.1 * x.2.2) (x.2.1 * y.2.2)
 
-/-- `gumbel_pflip(weights, rng)`; `none` = `assert!(!weights.is_empty())` or a NaN comparison -/
+/-- `gumbel_pflip(weights, rng)`; `us` = the variates `rng.sample(Open01)` (= `open01 word`; `rng.gen::<f64>()` before the
+    repair "gumbel_pflip draws its variates from the open unit interval"), func.rs:209;
+    `none` = `assert!(!weights.is_empty())` or a NaN comparison -/
 def gumbelPflip (weights : List α) (us : List α) : Option Nat :=
   let items := (List.range weights.length).zip (weights.zip (us.map ln))
   (maxBy gumbelCmp items).map (·.1)
